@@ -212,7 +212,19 @@ func c08Run(t *testing.T, run *Run, sc c08Scenario) {
 			why = append(why, fmt.Sprintf("%s@%v", e.Kind, e.At))
 			switch e.Kind {
 			case "fwd":
-				ok = ok || (got.Status == 200 && strings.HasPrefix(got.Target, e.Side+"-") && near(got.Done, e.At))
+				sideOK := strings.HasPrefix(got.Target, e.Side+"-")
+				if !sideOK && e.At-r.At > Eps {
+					// held across a redeploy: which of the service's two current sides applies is not
+					// fixed by the statement (same rule as C07, DESIGN section 11 item 2)
+					after := tlStateAt(sc.Cmds, e.At, true)
+					for _, c := range sc.Cmds {
+						if c.Kind == "deploy" && c.At > r.At && c.At < e.At &&
+							(strings.HasPrefix(got.Target, fmt.Sprintf("a%d-", after.Active)) || (after.Rollout > 0 && strings.HasPrefix(got.Target, fmt.Sprintf("r%d-", after.Rollout)))) {
+							sideOK = true
+						}
+					}
+				}
+				ok = ok || (got.Status == 200 && sideOK && near(got.Done, e.At))
 			case "504":
 				ok = ok || (got.Status == 504 && near(got.Done, e.At))
 			case "proxy200":
